@@ -275,7 +275,7 @@ def _dict_to_iso8583(message, bit_config, encoding=DEFAULT_ENCODING, hex_bitmap=
 def _field_to_iso8583(bit_config, field_value, encoding=DEFAULT_ENCODING):
 
     output = b''
-    LOGGER.debug(f'bit_config={bit_config}, field_value={field_value}, encoding={encoding}')
+    LOGGER.debug(f'bit_config={bit_config}, field_value={field_value!r}, encoding={encoding}')
     field_value = _pytype_to_string(field_value, bit_config)
     field_length = bit_config.get('field_length')
     length_size = _get_field_length(bit_config)  # size of length for llvar and lllvar fields
@@ -329,7 +329,7 @@ def _iso8583_to_field(bit, bit_config, message_data, encoding=DEFAULT_ENCODING):
             raise Iso8583DataError(f'Invalid field length DE{bit}', binary_context_data=message_data)
 
     field_data = message_data[length_size:length_size + field_length]
-    LOGGER.debug(f'field_data={field_data}')
+    LOGGER.debug(f'field_data={field_data!r}')
     field_processor = bit_config.get('field_processor')
 
     # do ascii conversion except for ICC field
@@ -602,7 +602,7 @@ def _icc_to_dict(field_data):
         LOGGER.debug(f"{field_length_raw=}")
         field_length = struct.unpack(">B", field_length_raw)[0]
 
-        LOGGER.debug("%s", format(field_tag_display))
+        LOGGER.debug("%r", field_tag_display)
         LOGGER.debug(field_length)
 
         # get the tag data
